@@ -301,3 +301,79 @@ example : iWhere { breakWhen := .eq, yieldWhen := .completed } (fun x _ => some 
     iOrder orderShape (fun x _ => some (Int.ofNat x)) ["v"] true [1, 3, 2] = [3, 2, 1] := by decide
 
 end PyxProps.C09
+
+/-! ==========================================================================================================
+  AUDIT ROUND 1 REPAIRS (C09#1, #2, #3)  — appended section
+  ========================================================================================================== -/
+namespace PyxProps.C09
+open Pyx.Meta Pyx.Query
+
+/-- the ordering attributes are SET on every element: the domain of the ordering theorems.  Python compares the key
+    lists element-wise and raises TypeError when an unset value (None) meets an integer; the model's `keyOf` reads an
+    unset value as 0, so `order_spec` / `order_stable` above describe the code only inside this domain -/
+def KeysSet (val : Valuation) (l : List Inst) (attrs : List String) : Prop := ∀ x ∈ l, ∀ a ∈ attrs, val x a ≠ none
+
+/-- C09#1 — the ordering theorems with their domain made explicit: when every ordering attribute is set on every
+    element, the key the model sorts by is the list of the attribute VALUES (no default stands in for an unset one), the
+    result is a permutation sorted by that key (ascending / descending), and ties keep their incoming order -/
+theorem order_spec_guarded (val : Valuation) (l : List Inst) (attrs : List String) (hset : KeysSet val l attrs) :
+    (∀ x ∈ l, (keyOf val attrs x).map some = attrs.map (val x)) ∧
+    (applyOp val l (.orderBy attrs false)).Perm l ∧
+    Sorted (fun a b => keyLt (keyOf val attrs a) (keyOf val attrs b)) (applyOp val l (.orderBy attrs false)) ∧
+    (applyOp val l (.orderBy attrs true)).Perm l ∧
+    Sorted (fun a b => keyLt (keyOf val attrs b) (keyOf val attrs a)) (applyOp val l (.orderBy attrs true)) ∧
+    (∀ k rev, (applyOp val l (.orderBy attrs rev)).filter (fun x => decide (keyOf val attrs x = k)) =
+      l.filter (fun x => decide (keyOf val attrs x = k))) := by
+  refine ⟨?_, (order_spec val l attrs).1, (order_spec val l attrs).2.1, (order_spec val l attrs).2.2.1,
+    (order_spec val l attrs).2.2.2, fun k rev => order_stable val l attrs k rev⟩
+  intro x hx
+  unfold keyOf
+  rw [List.map_map]
+  apply List.map_congr_left
+  intro a ha
+  have := hset x hx a ha
+  cases hv : val x a with
+  | none => exact absurd hv this
+  | some v => simp [hv]
+
+/-- C09#3 — a WHOLE chain at state level: when every step can be navigated (no UnknownLinkException) from every element
+    reached so far (`ChainOk`, with the steps' partner functions `fs`), the sequence the driver's `navSeq` computes is
+    `chainSeq fs h`; hence `navigate_many(h).nav(…)…()` is duplicate-free and contains `y` exactly when `y` is reachable
+    from a handle element through the relational composition of the steps (`nav_spec` is about what the driver runs) -/
+theorem nav_seq_is_chain (sch : Schema) (val : Valuation) (s : State) (h : List Inst) (steps : List Step)
+    (fs : List (Inst → List Inst)) (hc : ChainOk sch s steps fs h) (y : Inst) :
+    navSeq sch s h steps = some (chainSeq fs h) ∧
+    navMany sch val s h steps [] = some (dedupFirst (chainSeq fs h)) ∧
+    (y ∈ dedupFirst (chainSeq fs h) ↔ ∃ x ∈ h, Reach fs x y) := by
+  have h1 := navSeq_chainSeq sch s steps fs h hc
+  refine ⟨h1, ?_, (nav_spec fs h y).2⟩
+  unfold navMany
+  rw [h1]
+  rfl
+
+/-- C09#2 — the single-result forms and laziness.  `navigate_one/any(h)…()` is `next(iter(…), None)` over LAZY
+    generators: the code stops at the first result and never navigates from the handle elements after it.  The model's
+    `navOne` evaluates the whole sequence first and is an exception as soon as ANY element raises.  The two agree when no
+    element raises — the domain of `nav_one_spec` above: handles whose elements all have the navigated link (in
+    particular single-class handles, the only ones the correspondence generates).  Inside it: -/
+theorem nav_one_domain (sch : Schema) (val : Valuation) (s : State) (h : List Inst) (steps : List Step)
+    (fs : List (Inst → List Inst)) (hc : ChainOk sch s steps fs h) (ops : List QOp) :
+    navOne sch val s h steps ops = some ((applyOps val (chainSeq fs h) ops).head?) ∧
+    navOne sch val s h steps ops = (navMany sch val s h steps ops).map List.head? := by
+  refine ⟨?_, nav_one_spec sch val s h steps ops⟩
+  unfold navOne
+  rw [navSeq_chainSeq sch s steps fs h hc]
+  rfl
+
+/-! examples: the two-step chain a → ab → b of the schema above satisfies `ChainOk`; an unknown link makes `navSeq` an exception -/
+example : ChainOk schAB stAB [⟨2, "R2", ""⟩, ⟨1, "R2", ""⟩]
+    [fun x => if x = 0 then [10, 11, 12] else [], fun x => if x = 10 ∨ x = 12 then [20] else if x = 11 then [21] else []] [0] := by
+  refine ⟨?_, ?_, trivial⟩
+  · intro x hx; simp at hx; subst hx; decide
+  · intro x hx
+    simp at hx
+    rcases hx with rfl | rfl | rfl <;> decide
+example : navSeq schAB stAB [0, 20] [⟨2, "R9", ""⟩] = none ∧ navigate schAB stAB 0 2 "R2" "" = some [10, 11, 12] := by decide
+example : KeysSet (fun x _ => some (Int.ofNat x)) [3, 1, 2] ["v"] := by intro x _ a _; simp
+
+end PyxProps.C09
